@@ -1,8 +1,11 @@
 """C18 — impl-only supplementary stream: a step left through a BaseException (asyncio cancellation, or a BaseException raised by
 user code) while ANOTHER process is awaited inline, in the same task.
 
-The process-stack model (`pmodel procstack`) has no inline await of a child and no cancellation; these hand-written families are
-decided by the monitor below on the real code alone.  Families: a parent step that does `await child.step_until_terminated()`
+REGRESSION CORPUS.  These hand-written families first exposed the seeded change C18-r2-m1 (scope left only on `Exception`) when
+the process-stack model had no inline await and no cancellation.  The model now has both (`Act.inline`, `End.raiseBase`,
+`Event.cancel`; scenarios `procstack_gen.corpus_inline()` / `random_scenario_inline()` go through the model correspondence); this
+file is kept because it is cheap and independent of the generated-class machinery: it is decided by the monitor below on the real
+code alone and contributes no model evidence.  Families: a parent step that does `await child.step_until_terminated()`
 in its own task, nesting depth 1..3, the child's step having 1..3 await points and ending normally / raising an Exception /
 raising a BaseException subclass / being cancelled (task.cancel() on the parent's stepping task) at await point i; the parent
 absorbs whatever comes out and carries on.  Observed at every code point: Process.current().
